@@ -31,7 +31,8 @@ Inductive prim :=
 | PErrMsg
 | PDisplay | PWrite | PNewline | PDisplayln
 | PError | PApply | PMap | PFilter | PFoldl | PFoldr | PForEach
-| PCallCC | PDynWind | PValues_unused.
+| PCallCC | PDynWind
+| PHash | PHashInsert | PHashRef | PHashTryGet | PHashContains | PHashLength | PHashRemove | PHashP.
 
 Inductive const :=
 | CInt (z : Z) | CBool (b : bool) | CStr (s : string) | CSym (s : string) | CVoid | CChar (c : ascii).
@@ -79,6 +80,7 @@ Inductive val :=
 | VBox (l : loc)
 | VCont (k : list frame) (w : list wind)
 | VErr (k : errkind) (msg : string) (irritants : list val)
+| VHash (kvs : list (val * val))            (* immutable hash map: association list, keys pairwise non-equal? *)
 with frame :=
 | FArgs (done : list val) (todo : list expr) (f : expr) (ρ : env)   (* evaluating operands, operator last *)
 | FFun (args : list val)                                            (* evaluating the operator *)
@@ -236,6 +238,7 @@ Section Print.
                   end
       | VCont _ _ => "#<continuation>"
       | VErr _ m _ => "#<error:" ++ m ++ ">"
+      | VHash _ => "#<hashmap>"
       end
     end.
 End Print.
@@ -285,6 +288,9 @@ Fixpoint val_eqb (fuel : nat) (a b : val) : bool :=
     | VMVec l1, VMVec l2 => Nat.eqb l1 l2
     | VBox l1, VBox l2 => Nat.eqb l1 l2
     | VPrim _, VPrim _ => false
+    | VHash l1, VHash l2 =>
+        Nat.eqb (List.length l1) (List.length l2) &&
+        forallb (fun kv => existsb (fun kv' => val_eqb f (fst kv) (fst kv') && val_eqb f (snd kv) (snd kv')) l2) l1
     | _, _ => false
     end
   end.
@@ -324,6 +330,26 @@ Fixpoint list_last (l : list val) : option val :=
   match l with [] => None | [x] => Some x | _ :: r => list_last r end.
 
 Definition substring_ (s : string) (a b : nat) : string := String.substring a (b - a) s.
+
+
+(* hash maps: association lists with pairwise non-equal? keys, newest binding replaces the old one *)
+Fixpoint hash_remove (k : val) (l : list (val * val)) : list (val * val) :=
+  match l with
+  | [] => []
+  | (k', v') :: r => if val_eqb eq_fuel k k' then hash_remove k r else (k', v') :: hash_remove k r
+  end.
+Definition hash_insert (k v : val) (l : list (val * val)) : list (val * val) := (k, v) :: hash_remove k l.
+Fixpoint hash_get (k : val) (l : list (val * val)) : option val :=
+  match l with
+  | [] => None
+  | (k', v') :: r => if val_eqb eq_fuel k k' then Some v' else hash_get k r
+  end.
+Fixpoint hash_build (args : list val) (acc : list (val * val)) : option (list (val * val)) :=
+  match args with
+  | [] => Some acc
+  | k :: v :: r => hash_build r (hash_insert k v acc)
+  | [_] => None
+  end.
 
 (* result of a store-independent primitive *)
 Definition pure_prim (p : prim) (args : list val) : option presult :=
@@ -430,6 +456,20 @@ Definition pure_prim (p : prim) (args : list val) : option presult :=
                          | [_] => POk (VBool false) | _ => aerr "procedure?" end)
   | PErrorObjP => Some (match args with [VErr _ _ _] => POk (VBool true) | [_] => POk (VBool false) | _ => aerr "error-object?" end)
   | PErrMsg => Some (match args with [VErr _ m _] => POk (VStr m) | [_] => terr "error-object-message" | _ => aerr "error-object-message" end)
+  | PHash => Some (match hash_build args [] with Some l => POk (VHash l) | None => aerr "hash" end)
+  | PHashInsert => Some (match args with [VHash l; k; v] => POk (VHash (hash_insert k v l)) | [_; _; _] => terr "hash-insert" | _ => aerr "hash-insert" end)
+  | PHashRef => Some (match args with
+                      | [VHash l; k] => match hash_get k l with Some v => POk v | None => gerr "hash-ref: key not found" end
+                      | [_; _] => terr "hash-ref" | _ => aerr "hash-ref" end)
+  | PHashTryGet => Some (match args with
+                         | [VHash l; k] => match hash_get k l with Some v => POk v | None => POk (VBool false) end
+                         | [_; _] => terr "hash-try-get" | _ => aerr "hash-try-get" end)
+  | PHashContains => Some (match args with
+                           | [VHash l; k] => POk (VBool (match hash_get k l with Some _ => true | None => false end))
+                           | [_; _] => terr "hash-contains?" | _ => aerr "hash-contains?" end)
+  | PHashLength => Some (match args with [VHash l] => POk (VInt (Z.of_nat (List.length l))) | [_] => terr "hash-length" | _ => aerr "hash-length" end)
+  | PHashRemove => Some (match args with [VHash l; k] => POk (VHash (hash_remove k l)) | [_; _] => terr "hash-remove" | _ => aerr "hash-remove" end)
+  | PHashP => Some (match args with [VHash _] => POk (VBool true) | [_] => POk (VBool false) | _ => aerr "hash?" end)
   | _ => None
   end.
 
@@ -687,6 +727,8 @@ Definition prim_of_name (x : ident) : option prim :=
      ("display", PDisplay); ("write", PWrite); ("newline", PNewline); ("displayln", PDisplayln);
      ("error", PError); ("apply", PApply); ("map", PMap); ("filter", PFilter); ("foldl", PFoldl);
      ("foldr", PFoldr); ("for-each", PForEach);
+     ("hash", PHash); ("hash-insert", PHashInsert); ("hash-ref", PHashRef); ("hash-try-get", PHashTryGet);
+     ("hash-contains?", PHashContains); ("hash-length", PHashLength); ("hash-remove", PHashRemove); ("hash?", PHashP);
      ("call/cc", PCallCC); ("call-with-current-continuation", PCallCC); ("dynamic-wind", PDynWind)] in
   lookup x tbl.
 
@@ -1028,6 +1070,13 @@ Fixpoint esc_canon (s : string) : string :=
      else String c "") ++ esc_canon r
   end.
 
+Fixpoint insert_sorted (x : string) (l : list string) : list string :=
+  match l with
+  | [] => [x]
+  | y :: r => if String.leb x y then x :: l else y :: insert_sorted x r
+  end.
+Definition sort_strings (l : list string) : list string := fold_right insert_sorted [] l.
+
 Section Canon.
   Variable st_store : list (loc * val).
   Fixpoint canon (fuel : nat) (v : val) : string :=
@@ -1060,6 +1109,7 @@ Section Canon.
                   end
       | VCont _ _ => "#<continuation>"
       | VErr _ m _ => "#<error>"
+      | VHash l => "#hash(" ++ join " " (sort_strings (map (fun kv => "[" ++ canon f (fst kv) ++ " " ++ canon f (snd kv) ++ "]") l)) ++ ")"
       end
     end.
 End Canon.
